@@ -382,7 +382,9 @@ def run_colon(case):
 
 
 # ---- text that does not start with '=': only a lone error literal is read as a formula
-NOEQ_PREFIX = ['#REF!', '#N/A', '#DIV/0!', '#ref!', "'S'!#REF!", '1', 'A1', 'SUM(1)', '"s"', '', ' #NUM!', 'TRUE']
+NOEQ_PREFIX = ['#REF!', '#N/A', '#DIV/0!', '#ref!', "'S'!#REF!", '1', 'A1', 'SUM(1)', '"s"', '', ' #NUM!', 'TRUE',
+               # an array formula as the file stores it: the text ends at the brace that closes it
+               '{=1}', '{=A1+1}', '{=SUM(1,{2})}', ' { = 1 }']
 NOEQ_CHARS = CHARS + [' ', '=', 'x', '#']
 
 
@@ -398,12 +400,13 @@ def run_noeq(case):
     for L in range(0, 4):
         for rest in itertools.product(NOEQ_CHARS, repeat=L):
             text = pre + ''.join(rest)
-            if text.lstrip().startswith('=') or text.lstrip().startswith('{'):
+            brace = pre.lstrip().startswith('{')
+            if text.lstrip().startswith('=') or (text.lstrip().startswith('{') and not brace):
                 continue
             st, b = parse(text)
             n += 1
             oc[st] = oc.get(st, 0) + 1
-            lone = '#' in pre and ''.join(rest).strip() == ''       # white space around the literal is insignificant
+            lone = ('#' in pre or brace) and ''.join(rest).strip() == ''       # white space around the literal / the braces is insignificant
             if st.startswith('ESC'):
                 fails.append(Fail('escape', got=st, exp='FormulaError or a formula', text=text, src='noeq', feat='noeq'))
             elif st == 'VALID' and not lone:
